@@ -6,7 +6,7 @@
    handle cap), every piece length and every initial handle table.
    Chunk arithmetic: count = ceil(size / L), only the last chunk may be shorter.
    The hash function is a parameter (any H); see DESIGN.md for the pipeline part. *)
-From Torf Require Import Base Extracted Geometry Stream ChunkProofs IterProofs Pipeline PipelineProofs FlowProofs.
+From Torf Require Import Base Extracted Geometry Stream ChunkProofs IterProofs Pipeline PipelineProofs FlowProofs DrainProofs CompleteProofs.
 Open Scope Z_scope.
 
 Theorem C01_items : forall d L fs h,
@@ -59,6 +59,25 @@ Proof.
   rewrite HY, map_map. reflexivity.
 Qed.
 Print Assumptions C01_pipeline.
+
+(* UNBOUNDED, the other direction: a hashing run over readable content that returns a verdict without having been told
+   to stop returns True AND has stored exactly the SHA-1 of the consecutive chunks of the concatenated stream, in
+   order -- under every schedule, with any number of hashers, any out-of-memory handling and any clock.  (So
+   "piece hashes are the SHA-1 of the concatenated stream" holds for every uncancelled run, not only for those
+   that happen to return True.) *)
+Theorem C01_unstopped_run_stores_reference : forall (hid : bytes -> Z) d L fs c s r,
+  (1 <= cf_hashers c)%nat ->
+  yielded (cf_items c) = map (fun p => RPiece (hid p)) (chunks L (stream_of d fs)) ->
+  cf_verify c = None -> cf_total c = Pipeline.zlen (chunks L (stream_of d fs)) ->
+  reach c s -> s_result s = Some r -> verdict r -> s_stop s = false ->
+  r = ResTrue /\ sorted_hashes (s_hashes s) = map hid (chunks L (stream_of d fs)).
+Proof.
+  intros hid d L fs c s r Hn HY Hv Ht Hr Hres Hvd Hs.
+  apply (unstopped_generate_stores_reference c s r (map hid (chunks L (stream_of d fs))) Hn Hr Hv); try assumption.
+  - rewrite HY, map_map. reflexivity.
+  - unfold Pipeline.zlen in *. rewrite map_length. exact Ht.
+Qed.
+Print Assumptions C01_unstopped_run_stores_reference.
 
 (* non-vacuity: 3 files, boundary inside the second file, L = 4 *)
 Example C01_example :
